@@ -9,7 +9,7 @@ CONSTANTS
   TNames = {"map"}
   Hints = {"-"}
   TMenu = {"ghosts", "where_clause", "child_parents"}
-  MMenu = {"map", "ghost_d", "child", "parent0", "literal", "pattern", "type_hint"}
+  MMenu = {"map", "ghost_d", "child", "parent0", "parentp", "literal", "pattern", "type_hint"}
   FixedTraits <- BundleAB
   SpellAll = FALSE
   TCps = {"-", "A", "B"}
